@@ -90,7 +90,13 @@ def _opt_b(v):
 
 
 def _qvec_to_f(s):
-    return np.array([float(Fraction(t)) for t in s.split()], dtype=float)
+    def one(t):
+        q = Fraction(t)
+        try:
+            return float(q)
+        except OverflowError:          # an exact model value beyond the float range (a diverged fit): it is +-inf as a float
+            return float('inf') if q > 0 else float('-inf')
+    return np.array([one(t) for t in s.split()], dtype=float)
 
 
 def _maxrel(a, b):
